@@ -492,6 +492,12 @@ func c07Check(a *artefacts, tier string, seed uint64, replay string) int {
 			}
 			fps[vv.Res.SchedFP] = true
 			stats["variant."+v.Name]++
+			if v.Twins > 0 {
+				for _, k := range []string{"twin.succeeded", "twin.failed", "twin.panicked", "global-var-yield"} {
+					stats["concurrent-generations."+k] += vv.Res.Counters[k]
+				}
+				stats["concurrent-generations.scheduling-decisions"] += vv.Res.Branching
+			}
 			if v.Stale {
 				stats["variant.with-stale-files"]++
 			}
